@@ -17,6 +17,11 @@ package repository_test
 // repository disappear from the cache when the index is loaded / snapshots are
 // listed.
 //
+// Part C (ENUM): histories within one process (one cache object): {the first
+// load of the uncached file meets a transient backend error; the file was
+// cached and another process cleared the entry; both} then the cached copy is
+// damaged once {flip, truncate} and the API is called twice - oracle of part A.
+//
 // Part B (GATE): two loaders of the same uncached handle through one cache
 // (the in-progress de-duplication) with the backend Load gated (answers ok/err)
 // and "another process wipes the cache directory" as an action at every step;
@@ -26,11 +31,14 @@ package repository_test
 import (
 	"bytes"
 	"context"
+	"errors"
 	"fmt"
+	"io"
 	"os"
 	"path/filepath"
 	"sort"
 	"strings"
+	"sync"
 	"testing"
 
 	"github.com/restic/restic/internal/backend"
@@ -189,6 +197,30 @@ func verifC38APIs() []verifC38API {
 	}
 }
 
+// verifC38FailOnce fails the next Load of one file with a transient error once armed.
+type verifC38FailOnce struct {
+	backend.Backend
+	t     backend.FileType
+	name  string
+	armed bool
+	mu    sync.Mutex
+}
+
+func (f *verifC38FailOnce) arm() { f.mu.Lock(); f.armed = true; f.mu.Unlock() }
+
+func (f *verifC38FailOnce) Load(ctx context.Context, h backend.Handle, length int, offset int64, fn func(rd io.Reader) error) error {
+	f.mu.Lock()
+	hit := f.armed && h.Type == f.t && h.Name == f.name
+	if hit {
+		f.armed = false
+	}
+	f.mu.Unlock()
+	if hit {
+		return errors.New("verifC38: transient backend error")
+	}
+	return f.Backend.Load(ctx, h, length, offset, fn)
+}
+
 type verifC38State struct {
 	name    string
 	damaged bool
@@ -234,7 +266,7 @@ func verifC38States() []verifC38State {
 func TestVerif_C38(t *testing.T) {
 	r := vh.Start(t, "C38")
 	defer r.Finish()
-	r.Rule("Part A: every (reading API, cached-file state) pair on a fresh cache object, each API called twice; non-trivial = the cached file was damaged. Part B: two concurrent loaders of one uncached handle with gated backend loads (ok/err) and a cache wipe by another process at any step, all orders within the deviation bound.")
+	r.Rule("Part A: every (reading API, cached-file state) pair on a fresh cache object, each API called twice; non-trivial = the cached file was damaged. Part C: the same after a history in the same process (transient backend error on the first load / entry cleared by another process) before the damage. Part B: two concurrent loaders of one uncached handle with gated backend loads (ok/err) and a cache wipe by another process at any step, all orders within the deviation bound.")
 	r.Assume("the repository's own files are healthy in part A (damaged repository files are C02/C03)")
 	ctx := context.Background()
 	oracle.LowKDF()
@@ -307,6 +339,89 @@ func TestVerif_C38(t *testing.T) {
 				r.Sample(map[string]any{"part": "A", "api": api.name, "cached_state": cs.name, "calls_ok": outcomes})
 			}
 			_ = os.RemoveAll(cdir)
+		}
+	}
+
+	// Part C: histories within ONE process (one cache object): something happens to the handle before its
+	// cached copy gets damaged - the first load of the uncached file meets a transient backend error (restic
+	// forgets the cache entry and retries), or the file was cached and another process cleared the entry -
+	// then the cached copy is damaged once and the API is called twice, with the oracle of part A.
+	for _, api := range verifC38APIs() {
+		want, err := api.call(ctx, fx, fx.truth)
+		if err != nil {
+			t.Fatalf("%s on the uncached repository: %v", api.name, err)
+		}
+		for _, prefix := range []string{"transient-error-on-first-load", "cached-then-cleared-by-another-process", "cached-cleared-transient-error"} {
+			for _, cs := range verifC38States() {
+				if cs.name != "flip-middle" && cs.name != "truncated-to-half" {
+					continue
+				}
+				ck := "C|" + api.name + "|" + prefix + "|" + cs.name
+				caseNo++
+				if !r.Case(ck) {
+					continue
+				}
+				cdir := filepath.Join(r.Scratch, fmt.Sprintf("cache-%d", caseNo))
+				id := api.id(fx)
+				good := fx.state[gatebe.FileKey{Type: api.t, Name: id.String()}]
+				cpath := verifC38CachePath(cdir, fx.repoID, api.t, id.String())
+				c, err := cache.New(fx.repoID, cdir)
+				if err != nil {
+					t.Fatal(err)
+				}
+				store := gatebe.NewStoreFrom(fx.state, nil)
+				flaky := &verifC38FailOnce{Backend: &gatebe.Backend{S: store, Proc: "r", Conns: 2, AtomicReplace: true}, t: api.t, name: id.String()}
+				repo, err := oracle.OpenOn(ctx, flaky, repository.Options{})
+				if err != nil {
+					t.Fatal(err)
+				}
+				repo.UseCache(c, func(string, ...any) {})
+				r.Eval(1)
+				r.Trace(1)
+				r.Nontrivial(ck)
+				step := func(what string, mustSucceed bool) bool {
+					var got []byte
+					var cerr error
+					if p, msg := vh.NoPanic(func() { got, cerr = api.call(ctx, fx, repo) }); p {
+						r.Violationf(ck, "C38|panic|"+ck, ck, "%s (%s) panicked: %s", api.name, what, msg)
+						return false
+					}
+					r.Transition(1)
+					switch {
+					case cerr == nil && !bytes.Equal(got, want):
+						r.Violationf(ck, "C38|wrong-bytes|"+ck, ck, "%s (%s) returned data that differs from the repository's without an error", api.name, what)
+					case cerr != nil && mustSucceed:
+						r.Violationf(ck, "C38|not-replaced|"+ck, ck, "%s (%s) fails although the repository's copy is healthy and the backend works: %v", api.name, what, cerr)
+					}
+					return cerr == nil
+				}
+				switch prefix {
+				case "transient-error-on-first-load":
+					flaky.arm()
+					step("first load, transient backend error", false)
+				case "cached-then-cleared-by-another-process":
+					step("first load", true)
+					_ = os.Remove(cpath)
+					step("load after the entry was cleared", true)
+				case "cached-cleared-transient-error":
+					step("first load", true)
+					_ = os.Remove(cpath)
+					flaky.arm()
+					step("load after the entry was cleared, transient backend error", false)
+				}
+				if err := cs.apply(cpath, good); err != nil {
+					t.Fatal(err)
+				}
+				ok1 := step("first call after the cached copy was damaged", false)
+				ok2 := step("second call after the cached copy was damaged", true)
+				if api.t != backend.PackFile {
+					if now, err := os.ReadFile(cpath); (err != nil && !os.IsNotExist(err)) || (err == nil && !bytes.Equal(now, good)) {
+						r.Violationf(ck, "C38|cache-not-repaired|"+ck, ck, "after %s the damaged cached file (%s, history %s) was not replaced by the repository's copy (read error: %v)", api.name, cs.name, prefix, err)
+					}
+				}
+				r.Outcome(fmt.Sprintf("C|%s|%s:%v,%v", prefix, cs.name, ok1, ok2))
+				_ = os.RemoveAll(cdir)
+			}
 		}
 	}
 
